@@ -79,6 +79,11 @@ class Report:
         self.instances.append(Instance(rule, construct, HOLDS, detail, loc, extra))
 
     def violation(self, rule, construct, what, loc='', **extra):
+        if 'Unk(text=' in str(what):
+            # the explanation shows a value the evaluator could not evaluate (an opaque call, a construct outside its idioms): a
+            # mismatch against it is not a verdict about the code - the obligation is undecided (exit 2), not violated
+            self.instances.append(Instance(rule, construct, CANNOT, 'not evaluated: ' + str(what), loc, extra))
+            return
         self.instances.append(Instance(rule, construct, VIOLATION, what, loc, extra))
 
     def cannot(self, rule, construct, why, loc='', **extra):
